@@ -1244,8 +1244,6 @@ Proof.
   assert (DJ : date_dirs_ok items = true).
   { unfold date_dirs_ok. destruct (uses ["%j"] items); [exact FD | reflexivity]. }
   assert (S : supported_fmt items = true) by (unfold parse_fmt in F; apply andb_true_iff in F; tauto).
-  assert (US : uses ["%s"] items = false).
-  { unfold parse_fmt in F. apply andb_true_iff in F. destruct F as [_ F]. apply negb_true_iff in F. exact F. }
   destruct (strftime_posix ned md p fmt c V CO Ry S NS) as (s & E1 & E2).
   pose proof (civil_of_ranges md p c CO Ry) as R.
   destruct (strptime_defaults md cfg c fmt s R F DJ ltac:(fold items; congruence) E2) as (pp & E3 & E4 & Vq).
